@@ -8,6 +8,8 @@ expression; (exhaust) mutators that regenerate a selected mutation exhaust the
 operator generator after use so the splice is undone before the next one;
 (index-space) a position bound by enumerate(E) stores only into the list E enumerates;
 a mutator with its own mutate() has its own (or the generic) mutation_count.
+Further clauses (added later): C28.splice (must-pass): both _generic_visit_* generators write the mutated
+child into the parent before every yield.
 """
 
 from __future__ import annotations
